@@ -299,7 +299,9 @@ def check_C11(tier, seed, rest):
     v = [as_violation(f) for f in r["findings"] if f["kind"] in ("munch", "err_span", "eoi", "crash", "partial_wrong")]
     # a subpattern source that is not a regex on its own has no "non-capturing group holding the subpattern's source":
     # it must be rejected, or its parentheses / flags / alternations leak into the pattern that uses it
-    bad = [("a)|(b", "x(?&s0)y"), ("a)(?i", "(?&s0)b"), ("a|b)(c", "(?&s0)"), ("(a", "(?&s0))"), ("a)", "((?&s0)"), ("a)|(?&s1", "x(?&s0))"), ("[a", "(?&s0)]")]
+    bad = [("a)|(b", "x(?&s0)y"), ("a)(?i", "(?&s0)b"), ("a|b)(c", "(?&s0)"), ("(a", "(?&s0))"), ("a)", "((?&s0)"), ("a)|(?&s1", "x(?&s0))"), ("[a", "(?&s0)]"),
+           # parentheses that are no group delimiters (inside a character class, escaped, inside a comment of verbose mode) around the stray one
+           ("[(]a)|(b[)]", "x(?&s0)y"), ("\\(a)|(b\\)", "x(?&s0)y"), ("(?x)a # (\n)|(b", "x(?&s0)y"), ("[)]a)|(b[(]", "(?&s0)"), ("a[(])(?i", "(?&s0)b")]
     bdefs = [corpus.mk("subbad%d" % k, [corpus.rx(user, prio=9), corpus.rx("[a-z]", prio=1)], subs=[("s1", "q")] * (1 if "s1" in body else 0) + [("s0", body)], tags=["sub"]) for k, (body, user) in enumerate(bad)]
     bdefs += [corpus.mk("subbadb%d" % k, [corpus.rx(user.encode(), prio=9), corpus.rx(b"[a-z]", prio=1)], subs=[("s0", body.encode())], utf8=False, tags=["sub"]) for k, (body, user) in enumerate(bad[:4])]
     _, bmetas, _ = capture(bdefs, "subbad")
